@@ -77,6 +77,10 @@ def corrupt(rnd, cmd, props, names, inflight, owner_mode):
         choices += ['conflict'] * 3
     if cmd == 'get':
         choices += ['bad_get_key']
+    if rnd.random() < .12:
+        # left as it is: a well-formed request may still be refused (conflict, a hook's veto, ...) and the same
+        # rule applies to it
+        return cmd, props, ['none(valid)']
     for _ in range(rnd.choice([1, 1, 1, 2])):
         op = rnd.choice(choices)
         ops.append(op)
@@ -129,6 +133,9 @@ def plan(tier, seed):
 def gen_world(rnd):
     ws = [{'name': 'a', 'numprocesses': 2, 'graceful_timeout': 1.0, 'warmup_delay': 0.3,
            'beh': [{'15': ['die', 0.4]}]}]
+    if rnd.random() < .2:
+        # a signal hook that vetoes or fails for one particular delivery only
+        ws[0]['hooks'] = {'before_signal': ['%s@%d' % (rnd.choice(['false', 'raise']), rnd.randint(1, 5)), False]}
     if rnd.random() < .7:
         ws.append({'name': 'B b', 'numprocesses': 1, 'graceful_timeout': 0.2})
     if rnd.random() < .5:
@@ -200,7 +207,13 @@ def _world(w, h, rnd, reqs, res, done):
             break
         inflight = w.arb._exclusive_running_command is not None
         pids = w.kernel.live('w_a')
-        if reqs is None:
+        if reqs is None and h['watchers'][0].get('hooks') and i < 4 and rnd.random() < .7:
+            # whole-watcher deliveries while one particular delivery is vetoed by the hook
+            cmd, props, ops = rnd.choice(['signal', 'signal', 'kill']), {'name': 'a', 'signum': rnd.choice([28, 23, 17])}, \
+                ['none(valid)']
+            if cmd == 'signal' and rnd.random() < .3:
+                props['recursive'] = True
+        elif reqs is None:
             cmd, props = rnd.choice(templates(rnd.sample(names, len(names)), pids))
             cmd, props, ops = corrupt(rnd, cmd, props, names, inflight, h.get('owner_mode'))
         else:
